@@ -12,6 +12,7 @@ CONSTANTS
   EmptyRaises = FALSE
   Emit = FALSE
   Objs = {1, 2, 3, 4}
+  OFields = {"src", "bin"}
   Rich = 0
   SharedMemo = FALSE
   EmitObj = FALSE
